@@ -37,7 +37,9 @@ func (u *Unit) execBlock(fn *ssa.Function, n *node, st *State) *retInfo {
 			}
 			return &retInfo{st: st, vals: vals, pos: x.Pos(), blk: n.b.Index, node: n.seen}
 		case *ssa.Panic:
-			u.safety(st, "panic", "false", x.Pos())
+			// an explicit panic ends the path; it is not an obligation (only run-time panics of
+			// indexing, nil dereference, conversions ... are)
+			u.note("explicit panic(...) calls terminate the path and are not proof obligations")
 			st.dead = true
 			return nil
 		default:
@@ -344,6 +346,10 @@ func (u *Unit) convert(st *State, x *ssa.Convert) {
 			u.safety(st, "convneg", sx(">=", v, "0"), x.Pos())
 		}
 		st.regs[x] = v
+	case fs == "Real" && ts == SInt:
+		st.regs[x] = sx("to_int", v)
+	case fs == SInt && ts == "Real":
+		st.regs[x] = sx("to_real", v)
 	case fs == SStr && ts == SBytes:
 		st.regs[x] = sx("s2b", v)
 	case fs == SBytes && ts == SStr:
